@@ -79,7 +79,7 @@ theorem words_cons_nonws_nonws (c d : Nat) (r : Str) (hc : isWs c = false) (hd :
   simp only [splitWs]
   cases hs : splitWs r with
   | nil => exact absurd hs (splitWs_ne_nil r)
-  | cons w ws => exact ⟨w, ws.filter fun x => !x.isEmpty, by simp [hc, hd], by simp [hc, hd]⟩
+  | cons w ws => exact ⟨w, ws.filter fun x => !x.isEmpty, by simp [hd], by simp [hc, hd]⟩
 
 theorem pyJoinSp_cons_cons (c : Nat) (w : Str) (ws : List Str) :
     pyJoinSp ((c :: w) :: ws) = c :: pyJoinSp (w :: ws) := by
@@ -165,7 +165,7 @@ theorem words_dropWhile (s : Str) : words (s.dropWhile isWs) = words s := by
   | cons c cs ih =>
     by_cases hc : isWs c = true
     · simp only [List.dropWhile_cons, hc, if_true, ih, words_cons_ws c cs hc]
-    · simp [List.dropWhile_cons, hc]
+    · simp [hc]
 
 theorem splitWs_append_ws (t : Str) (c : Nat) (hc : isWs c = true) :
     splitWs (t ++ [c]) = splitWs t ++ [[]] := by
@@ -188,7 +188,7 @@ theorem words_dropTrailing (r : Str) : words (r.dropWhile isWs).reverse = words 
   | cons c r' ih =>
     by_cases hc : isWs c = true
     · simp only [List.dropWhile_cons, hc, if_true, ih, List.reverse_cons, words_append_ws _ c hc]
-    · simp [List.dropWhile_cons, hc]
+    · simp [hc]
 
 theorem words_trim (s : Str) : words (FOStrings.trim s) = words s := by
   unfold FOStrings.trim
@@ -231,11 +231,11 @@ theorem trim_head (s : Str) : leadSp (FOStrings.trim s) = [] := by
           rw [List.reverse_cons]
           generalize xs.reverse = ys
           induction ys with
-          | nil => exact ⟨[], by simp [List.dropWhile_cons, hx]⟩
+          | nil => exact ⟨[], by simp [hx]⟩
           | cons y ys ih =>
             by_cases hy : isWs y = true
             · simp only [List.cons_append, List.dropWhile_cons, hy, if_true]; exact ih
-            · exact ⟨y :: ys, by simp [List.dropWhile_cons, hy]⟩
+            · exact ⟨y :: ys, by simp [hy]⟩
         obtain ⟨pre, hpre⟩ := hsuf
         rw [hpre] at ht
         simp at ht
